@@ -13,3 +13,4 @@ import Norad.Props.C08
 #print axioms C08.inplace_save_without_step5_counterexample
 #print axioms C08.refused_save_leaves_fs_fontinfo
 #print axioms C08.valid_info_is_serialisable
+#print axioms C08.refused_save_leaves_fs_groups_spec
